@@ -18,7 +18,7 @@ MARKER = b"8=FIX."
 def RULE(tier):
     return (
         "Streams of valid frames fabricated by the reference encoder (application messages 1 B..6 KB, "
-        "Heartbeat, TestRequest, in sequence after a Logon; values with '=', '|', '10=000', blanks at either end and quoted frame starts '8=FIX.4.2'; one stream with zero-padded fixed-width BodyLength) fed to the real socket_read_task of a real "
+        "Heartbeat, TestRequest, in sequence after a Logon; values with '=', '|', '10=000', blanks at either end and quoted frame starts '8=FIX.4.2'; one stream with zero-padded fixed-width BodyLength; 70 KB and 140 KB frames in 4096-byte and odd-sized reads; bursts ending exactly on a 4096-byte boundary; bursts in which a frame starts at every offset around the read boundary) fed to the real socket_read_task of a real "
         "acceptor endpoint under: EVERY 1-cut partition, "
         + ("EVERY 2-cut partition" if tier == "thorough" else "every 2-cut partition with both cuts within 8 bytes of a frame start / BodyLength / CheckSum field")
         + " of the small streams, the all-1-byte partition, Hypothesis-drawn multi-cut partitions of generated "
@@ -225,6 +225,49 @@ def cuts1(acc, name):
         b.close()
 
 
+def scale(acc):
+    """Read-size boundaries: frames far larger than one read (70 KB, 140 KB) delivered in read(4096)-sized and odd-sized pieces;
+    a burst that ends EXACTLY on a 4096-byte read boundary with nothing behind it; bursts of small frames longer than two reads
+    in which, over a sweep of alignments, a frame starts at every offset around the read boundary (4090..4100)."""
+    b = Bench()
+    try:
+        big = [ref_msg("D", "CLI", "SRV", 2, [(11, "big-1"), (58, "x" * 70000)]), ref_msg("0", "CLI", "SRV", 3),
+               ref_msg("D", "CLI", "SRV", 4, [(11, "big-2"), (58, "8=FI" * 35000)]), ref_msg("D", "CLI", "SRV", 5, [(11, "tail")])]
+        n = sum(map(len, big))
+        for step in (4096, 1000, 65536, 65537, 9973):
+            judge(acc, b, f"big/{step}", big, list(range(step, n, step)))
+        judge(acc, b, "big/one-read", big, [])
+        # exactly k * 4096 bytes, then silence
+        for k in (1, 2):
+            frames, total, seq = [], 0, 2
+            while total < k * 4096 - 400:
+                f = ref_msg("D", "CLI", "SRV", seq, [(11, f"o{seq}"), (58, "pad" * (seq % 5))])
+                frames.append(f)
+                total += len(f)
+                seq += 1
+            base = len(ref_msg("D", "CLI", "SRV", seq, [(11, "last"), (58, "")]))
+            fill = k * 4096 - total - base
+            last = ref_msg("D", "CLI", "SRV", seq, [(11, "last"), (58, "z" * fill)])
+            if len(last) != base + fill:  # BodyLength gained a digit
+                last = ref_msg("D", "CLI", "SRV", seq, [(11, "last"), (58, "z" * (fill - (len(last) - base - fill)))])
+            frames.append(last)
+            assert sum(map(len, frames)) == k * 4096, sum(map(len, frames))
+            judge(acc, b, f"exact-{k}x4096/one-read", frames, [])
+            judge(acc, b, f"exact-{k}x4096/4096-reads", frames, list(range(4096, k * 4096, 4096)))
+        # alignment sweep
+        for pad in range(0, 130, 1):
+            frames = [ref_msg("D", "CLI", "SRV", 2, [(11, "first"), (58, "p" * pad)])]
+            seq = 3
+            while sum(map(len, frames)) < 9000:
+                frames.append(ref_msg("D", "CLI", "SRV", seq, [(11, f"o{seq}"), (55, "SYM")]))
+                seq += 1
+            tot = sum(map(len, frames))
+            judge(acc, b, f"align/{pad}", frames, list(range(4096, tot, 4096)))
+        acc.klass("scale")
+    finally:
+        b.close()
+
+
 def cuts2(acc, name, part, parts, full):
     frames = small_streams()[name]
     n = sum(map(len, frames))
@@ -417,6 +460,7 @@ def EXHAUSTIVE(tier):
 def plan(tier, seed):
     jobs = [("cuts1", {"name": n}) for n in small_streams()]
     jobs.append(("garbage_sweep", {}))
+    jobs.append(("scale", {}))
     jobs += [("logon_stream", {"role": r}) for r in ("acceptor", "initiator")]
     jobs += [("second_connection_stream", {"role": r}) for r in ("acceptor", "initiator")]
     if tier == "quick":
